@@ -72,9 +72,14 @@ def compat_prefix_from_raw_spelling(violation, m):
             return False
         from props import C03
         text = C03.spelled(inp)[0].strip()[2:].strip()
-    elif law == "compat_is_ge_and_prefix":
-        from props import C04
-        text = C04.compat_text(inp)
+    elif law == "compat_is_ge_and_prefix" or (law in ("equal_candidates_same_answer", "in_operator_final_candidate")
+                                              and inp.get("op") == "~="):
+        if law == "in_operator_final_candidate":
+            from props import C03
+            text = C03.spelled(inp)[0].strip()[2:].strip()
+        else:
+            from props import C04
+            text = C04.compat_text(inp)
     elif law == "contains_vs_spec_strings":
         if not inp["clause"].strip().startswith("~="):
             return False
@@ -102,7 +107,8 @@ def gt_rejects_local_of_another_version(violation, m):
         if not cl.startswith(">") or cl.startswith(">="):
             return False
         inp = {"op": ">", "v": _struct_of(cl[1:]), "c": _struct_of(inp["cand"])}
-    if law not in ("contains_vs_admits", "local_label_blind", "contains_vs_spec_strings") or inp.get("op") != ">":
+    if law not in ("contains_vs_admits", "local_label_blind", "contains_vs_spec_strings",
+                   "in_operator_final_candidate") or inp.get("op") != ">":
         return False
     v, c = R.norm(inp["v"]), R.norm(inp["c"])
     return c["local"] is not None and R.same_release(c, v) and R.admits(">", v, False, c)
